@@ -82,6 +82,19 @@ def pool(ck: Check, pairs=False):
     return scen
 
 
+def sockfault_pool():
+    """the TCP connect succeeds but the socket is unusable (setsockopt / getpeername raise OSError): the start phase must fail
+    with a library error and everything - the socket included - must be released.  Not a model event: oracles only."""
+    scen = []
+    for fault in ("setsockopt", "getpeername"):
+        for login in (False, True):
+            sk = [("callStart",), ("resolved", 1), S, ("sockFault", fault), ("sockDone", 1), S, S]
+            scen.append((login, sk, "nomodel:sockfault"))
+            scen.append((login, sk + [("callFinish",), S], "nomodel:sockfault"))
+            scen.append((login, sk[:4] + [("force",)] + sk[4:], "nomodel:sockfault"))
+    return scen
+
+
 def noise_pool():
     """a device that speaks Noise but falls silent at some point of the connect (the handshake never completes):
     only the library's timers can end the wait"""
@@ -166,6 +179,9 @@ def correspond(ck: Check, scen, results, keys, what):
         pos = 0
         for j in g:
             lines, obs, _ = results[j]
+            if scen[j][2].startswith("nomodel"):
+                pos += len(lines)
+                continue
             for k, o in enumerate(obs):
                 m = out[pos + k]
                 compared += 1
